@@ -15,6 +15,9 @@ Qed.
 Lemma map_const_repeat {A B} (c : B) (l : list A) : map (fun _ => c) l = repeat c (List.length l).
 Proof. induction l; simpl; congruence. Qed.
 
+Lemma map_repeat' {A B} (f : A -> B) x k : map f (repeat x k) = repeat (f x) k.
+Proof. induction k; simpl; congruence. Qed.
+
 Lemma sumQ_repeat x k : sumQ (repeat x k) == inject_Z (Z.of_nat k) * x.
 Proof.
   induction k as [|k IH].
@@ -144,7 +147,7 @@ Section CodecProofs.
     pose proof (Hbp _ Hg) as Hb.
     unfold enc_ratio.
     destruct (Qle_bool (nthQ sd j) 0) eqn:E.
-    - apply Qle_bool_iff in E. exfalso. apply (Qlt_irrefl 0). eapply Qlt_le_trans; eauto.
+    - apply Qle_bool_iff in E. exfalso. exact (Qlt_irrefl 0 (Qlt_le_trans _ _ _ Hsd E)).
     - set (b := nthQ bp (gidx G j)) in *. set (s := nthQ sd j) in *. set (d := nthQ pd j) in *.
       assert (Hbs : 0 < b * s).
       { setoid_replace 0 with (0 * s) by ring. apply Qmult_lt_compat_r; assumption. }
@@ -201,7 +204,7 @@ Lemma norm_inv_ratio mu x k : ~ mu == 0 -> 0 < x ->
   ratio_rescale (ratio_pmean (repeat (ratio_scale mu x) (S k))) == x.
 Proof.
   intros Hmu _. unfold ratio_rescale, ratio_pmean, ratio_scale. cbn [fst snd].
-  rewrite !map_repeat. cbn [fst snd]. rewrite !meanQ_repeat. field. exact Hmu.
+  rewrite !map_repeat'. cbn [fst snd]. rewrite !meanQ_repeat. field. exact Hmu.
 Qed.
 
 (* ---------- piecewise linear interpolation passes through its knots ---------- *)
@@ -374,3 +377,126 @@ Proof.
   - apply isort_perm.
   - apply isort_sorted. intros a b. apply lex3_total.
 Qed.
+
+(* ---------- get_unique_onset_idxs always returns a partition of the note indices into non-empty groups ---------- *)
+Lemma split_groups_concat key eps l : forall prev cur,
+  List.concat (split_groups key eps prev cur l) = rev cur ++ l.
+Proof.
+  induction l as [|j r IH]; intros prev cur; simpl.
+  - rewrite app_nil_r. reflexivity.
+  - destruct (Qle_bool (key j - key prev) eps).
+    + rewrite IH. simpl. rewrite <- app_assoc. reflexivity.
+    + simpl. rewrite IH. reflexivity.
+Qed.
+
+Lemma split_groups_nonempty key eps l : forall prev cur, cur <> [] ->
+  Forall (fun g => g <> []) (split_groups key eps prev cur l).
+Proof.
+  induction l as [|j r IH]; intros prev cur Hc; simpl.
+  - constructor; [|constructor]. intro E. apply Hc. destruct cur; [reflexivity|].
+    simpl in E. apply app_eq_nil in E as [_ E]. discriminate.
+  - destruct (Qle_bool (key j - key prev) eps).
+    + apply IH. discriminate.
+    + constructor.
+      * intro E. apply Hc. destruct cur; [reflexivity|]. simpl in E. apply app_eq_nil in E as [_ E]. discriminate.
+      * apply IH. discriminate.
+Qed.
+
+Lemma existsb_eqb_In m g : existsb (Nat.eqb m) g = true <-> In m g.
+Proof.
+  rewrite existsb_exists. split.
+  - intros [x [Hx E]]. apply Nat.eqb_eq in E. subst. exact Hx.
+  - intros H. exists m. split; [exact H | apply Nat.eqb_refl].
+Qed.
+
+Lemma NoDup_app_r' {A} (a b : list A) : NoDup (a ++ b) -> NoDup b.
+Proof. induction a as [|x a IH]; simpl; intros H; [exact H|]. inversion H; subst. apply IH. assumption. Qed.
+Lemma NoDup_app_disj {A} (a b : list A) x : NoDup (a ++ b) -> In x a -> In x b -> False.
+Proof.
+  induction a as [|y a IH]; simpl; intros H Ha Hb; [destruct Ha|].
+  inversion H; subst. destruct Ha as [E | Ha].
+  - subst. apply H2. apply in_or_app. right. exact Hb.
+  - apply IH; assumption.
+Qed.
+
+Lemma gidx_member G : NoDup (List.concat G) -> forall i m, (i < List.length G)%nat -> In m (nth i G []) -> gidx G m = i.
+Proof.
+  induction G as [|g r IH]; intros ND i m Hi Hm; simpl in *; [lia|].
+  destruct i as [|i].
+  - apply existsb_eqb_In in Hm. rewrite Hm. reflexivity.
+  - assert (Hc : In m (List.concat r)).
+    { apply in_concat. exists (nth i r []). split; [apply nth_In; lia | exact Hm]. }
+    destruct (existsb (Nat.eqb m) g) eqn:E.
+    + apply existsb_eqb_In in E. exfalso. exact (NoDup_app_disj g (List.concat r) m ND E Hc).
+    + f_equal. apply IH; [exact (NoDup_app_r' _ _ ND) | lia | exact Hm].
+Qed.
+
+Lemma in_concat_nth (G : list (list nat)) j : In j (List.concat G) -> exists i, (i < List.length G)%nat /\ In j (nth i G []).
+Proof.
+  induction G as [|g r IH]; simpl; intros H; [destruct H|].
+  apply in_app_or in H as [H | H].
+  - exists O. split; [lia | exact H].
+  - destruct (IH H) as [i [Hi Hj]]. exists (S i). split; [lia | exact Hj].
+Qed.
+
+Lemma groups_partition keys eps : groups_ok (groups keys eps) (List.length keys) = true.
+Proof.
+  set (n := List.length keys).
+  assert (HP : Permutation (List.concat (groups keys eps)) (seq 0 n)).
+  { unfold groups. pose proof (isort_perm (qkey_leb (nthQ keys)) (seq 0 n)) as HP.
+    change (isort (qkey_leb (nthQ keys)) (seq 0 n)) with (sort_idx keys) in HP.
+    destruct (sort_idx keys) as [|j r].
+    - simpl. exact HP.
+    - rewrite split_groups_concat. simpl. exact HP. }
+  assert (HN : Forall (fun g => g <> []) (groups keys eps)).
+  { unfold groups. destruct (sort_idx keys) as [|j r]; [constructor|].
+    apply split_groups_nonempty. discriminate. }
+  assert (ND : NoDup (List.concat (groups keys eps))).
+  { apply (Permutation_NoDup (Permutation_sym HP)). apply seq_NoDup. }
+  set (G := groups keys eps) in *.
+  unfold groups_ok. apply andb_true_iff. split.
+  - apply forallb_forall. intros j Hj. apply Nat.ltb_lt.
+    assert (Hc : In j (List.concat G)) by (apply (Permutation_in _ (Permutation_sym HP)); exact Hj).
+    destruct (in_concat_nth G j Hc) as [i [Hi Hm]].
+    rewrite (gidx_member G ND i j Hi Hm). exact Hi.
+  - apply forallb_forall. intros i Hi. apply in_seq in Hi. apply andb_true_iff. split.
+    + apply forallb_forall. intros m Hm. apply andb_true_iff. split.
+      * apply Nat.eqb_eq. apply gidx_member; [exact ND | lia | exact Hm].
+      * apply Nat.ltb_lt.
+        assert (Hc : In m (List.concat G)).
+        { apply in_concat. exists (nth i G []). split; [apply nth_In; lia | exact Hm]. }
+        apply (Permutation_in _ HP) in Hc. apply in_seq in Hc. lia.
+    + apply negb_true_iff. apply Nat.eqb_neq.
+      assert (Hlt : (i < List.length G)%nat) by lia.
+      rewrite Forall_forall in HN. specialize (HN (nth i G []) (nth_In G [] Hlt)).
+      destruct (nth i G []); [congruence | simpl; lia].
+Qed.
+
+Lemma codec_groups_partition so :
+  groups_ok (enc_groups so) (List.length so) = true /\ groups_ok (dec_groups so) (List.length so) = true.
+Proof.
+  split.
+  - unfold enc_groups. rewrite <- (map_length quantise so). apply groups_partition.
+  - unfold dec_groups. apply groups_partition.
+Qed.
+
+(* ---------- the hypotheses are satisfiable by a non-trivial state ----------
+   pickup note, a three-note chord, a grace note with its main note, a final note; performed with rubato *)
+Definition ex_so : list Q := [-1; 0; 0; 0; 1; 1; 2 # 1].
+Definition ex_sd : list Q := [1; 2; 1; 1; 0; 1; 2].
+Definition ex_po : list Q := [1 # 2; 11 # 10; 9 # 8; 23 # 20; 17 # 10; 7 # 4; 5 # 2].
+Definition ex_pd : list Q := [4 # 5; 1; 1 # 4; 1 # 2; 1 # 2; 3 # 4; 1].
+Definition ex_G := enc_groups ex_so.
+Definition ex_x := u_onsets ex_so (map2 Qplus ex_so ex_sd) ex_G.
+Definition ex_s := u_onsets ex_po (map2 Qplus ex_po ex_pd) ex_G.
+Example codec_example :
+  ex_G = [[0]; [1; 2; 3]; [4; 5]; [6]]%nat /\
+  dec_groups ex_so = ex_G /\ groups_ok ex_G (List.length ex_so) = true /\
+  forallb (fun b => negb (Qle_bool b 0)) (tempo_average ex_x ex_s) = true /\
+  forallb (fun b => negb (Qle_bool b 0)) (tempo_derivative ex_x ex_s) = true /\
+  map (fun r => Qred (fst (fst r)))
+      (decode Q meanQ (fun y => y) 0 (fun y => y) ex_so ex_sd ex_G
+         (encode Q id_scale (fun y => y) ex_so ex_sd ex_po ex_pd [64; 1; 127; 30; 31; 32; 33]%Z ex_G
+            (tempo_derivative ex_x ex_s)))
+  = [0; 3 # 5; 5 # 8; 13 # 20; 6 # 5; 5 # 4; 2].
+Proof. vm_compute. repeat split; reflexivity. Qed.
